@@ -246,6 +246,35 @@ def check_scan_and_listeners(ctx, prog):
                           'with %d sockets in the set and select() reporting %d ready, the collecting loop examines only %d socket(s): a connection pending on a later-bound endpoint is never accepted (and the loop spins)' % (bad if bad else (0, 0, 0)))
             except bytesets.Undecidable as u:
                 ctx.undecided('C14.scan', wi['pq'], role, fwhere(wi, fill[0]['l']), 'loop bounds not evaluable: %s' % u)
+    # C14.fresh: the list (and the count) waitInput() hands to the accept loop describes this call only: on every path that
+    # returns a value computed from the list, the list was emptied during this call (a timeout must not return the sockets of
+    # the previous wake-up - accept() would block on them and the stop request would never be seen)
+    filled = set(strip_lv(e['obj']).get('f') for lp in fill for e in ir.stmt_exprs(lp['body']) if e.get('k') == 'call' and e.get('op') == '<<' and strip_lv(e.get('obj') or {}).get('k') == 'mem')
+    role = 'waitInput:the reported sockets are those of this call'
+    if len(filled) != 1:
+        ctx.undecided('C14.fresh', wi['pq'], role, fwhere(wi), 'list of readable sockets not identified')
+    else:
+        fld = list(filled)[0]
+        gw = cfgm.CFG(wi)
+        stale = []
+
+        def empties(e):
+            if e.get('k') == 'call' and e.get('obj') is not None and strip_lv(e['obj']).get('k') == 'mem' and strip_lv(e['obj']).get('f') == fld:
+                nm = (e.get('pq') or '').split('::')[-1]
+                return nm == 'clear' or (nm == 'resize' and e.get('a') and const_val(e['a'][0]) == 0) or (nm == 'operator=' or e.get('op') == '=')
+            return e.get('k') == 'bin' and e.get('op') == '=' and strip_lv(e['x']).get('k') == 'mem' and strip_lv(e['x']).get('f') == fld
+
+        def st_w(nd, st):
+            if nd.kind == 'ev' and nd.e is not None and empties(nd.e):
+                return True
+            if nd.kind == 'ret' and nd.e is not None and not st and any(w.get('k') == 'mem' and w.get('f') == fld for w in walk_expr(q.expand(wi, nd.e))):
+                stale.append(nd.line)
+            return st
+        rw, _ = cfgm.dataflow(gw, False, cfgm.follow_helpers(prog, wi, st_w))
+        ctx.evaluations += sum(len(x) for x in rw.values())
+        ctx.check(not stale, 'C14.fresh', wi['pq'], role, fwhere(wi, stale[0] if stale else None), 'every return computed from `%s` follows its clear()' % fld,
+                  'waitInput() can return at line %s a count computed from `%s` without having emptied it in this call: after a timeout it reports the sockets of the previous wake-up, the accept loop calls the blocking accept() '
+                  'on a listener with nothing pending and never looks at the stop request again' % (stale[0] if stale else '', fld))
     s = fn1(prog, 'asl::SocketServer::stop')
     touching = [e for e in fn_exprs(s) if e.get('k') == 'call' and e.get('obj') is not None and any(w.get('k') == 'mem' and w.get('f') == '_sockets' for w in walk_expr(e['obj'])) and 'const' not in (e.get('sig') or '').split(')')[-1]]
     ctx.evaluations += 1
